@@ -17,6 +17,9 @@ GEN_METHODS = {
 # ---------------------------------------------------------------------------
 # spies and tripwire
 # ---------------------------------------------------------------------------
+DRAW_HOOK = [None]     # optional callable(spy), called on every draw of every spy (C08/C09 attribute draws to requests)
+
+
 class Spy:
     """np.random.Generator look-alike: delegates to a real generator and counts the draws"""
 
@@ -32,6 +35,8 @@ class Spy:
         if name in GEN_METHODS and callable(attr):
             def counted(*a, **k):
                 self.n += 1
+                if DRAW_HOOK[0] is not None:
+                    DRAW_HOOK[0](self)
                 return attr(*a, **k)
 
             return counted
